@@ -1840,7 +1840,7 @@ class FatFile(io.RawIOBase):
             # instance data on close, hence the getattr call here
             if (
                 getattr(self, '_entry', None) is not None and
-                self._entry.size == 0 and self._map
+                self._entry.size == 0 and self._map and self.writable()
             ):
                 # See note in _set_size
                 assert len(self._map) == 1
